@@ -628,6 +628,8 @@ class t2data(object):
         if (self.parameter['print_block'] is not None) and \
            (self.parameter['print_block'].strip() == ''):
             self.parameter['print_block'] = None
+        if self.parameter['print_block'] is not None: # (written un-fixed)
+            self.parameter['print_block'] = fix_blockname(self.parameter['print_block'])
         self.read_timesteps(infile)
         infile.read_value_line(self.parameter, 'param3')
         for val in infile.read_values('default_incons'):
